@@ -36,6 +36,8 @@ POS = [
     ('julia_ver1', 'f = open("le.bin","r");\na = map(ltoh, read!(f, Array{Int16}(undef, 2, 3)));\nclose(f);\nb = a[:, 2:3]', 'b', (2, 2), [3, 4, 5, 6]),
     ('julia_ver1', 'f = open("be.bin","r");\na = map(ntoh, read!(f, Array{Int16}(undef, 6)));\nfunction g(k)\n    s = k+1\n    a[s:6]\nend\nb = g(4)', 'b', (2,), [5, 6]),
     ('julia_ver1', 'f = open("le.bin","r");\na = map(ltoh, read!(f, Array{Int16}(undef, 2, 3)));\nb = a[:, 3:2]', 'b', (2, 0), []),
+    ('julia_ver1', 'using Mmap\nf = open("le.bin","r");\na = Mmap.mmap(f, Array{Int16,2}, (3, 2,));\nclose(f);', 'a', (3, 2), [1, 2, 3, 4, 5, 6]),     # host order = little-endian
+    ('julia_ver1', 'using Mmap\nf = open("be.bin","r");\na = Mmap.mmap(f, Array{Int16,1}, (6,));\nb = a[2:3]', 'b', (2,), [512, 768]),            # no byte-order conversion
     ('julia_ver0', 'f = open("le.bin","r");\na = map(ltoh, read(f, Int16, (3, 2)));\nclose(f);', 'a', (3, 2), [1, 2, 3, 4, 5, 6]),
     ('idl', 'a = read_binary("be.bin", data_type=2, data_dims=[2, 3], endian="big")\nk = 1\nIF k EQ 5 THEN b=[] ELSE b=a[*,k:2]', 'b', (2, 2), [3, 4, 5, 6]),
     ('idl', 'a = read_binary("le.bin", data_type=2, data_dims=[6], endian="little")\nk = 5\nIF k EQ 5 THEN b=[] ELSE b=a[0:1]', 'b', 'NULL', []),
@@ -52,6 +54,8 @@ NEG = [
     ('scilab', 'f = mopen("le.bin", "rb");\na = mgeti(6, "q", f);'),                               # unknown type letter
     ('R', 'f <- file("le.bin", "rb")\na <- readBin(con=f, what=integer(), n=6, size=4, signed=FALSE, endian="little")'),   # unsigned only for sizes 1, 2
     ('R', 'f <- file("le.bin", "rb")\na <- readBin(con=f, what=integer(), n=6, size=2, endian="middle")'),
+    ('julia_ver1', 'f = open("le.bin","r");\na = Mmap.mmap(f, Array{Int16,1}, (6,));'),           # Mmap not loaded
+    ('julia_ver1', 'using Mmap\nf = open("le.bin","r");\na = Mmap.mmap(f, Array{Int16,2}, (6,));'),   # rank of the type and of dims disagree
     ('julia_ver1', 'f = open("le.bin","r");\na = read(f, Int16, (3, 2));'),                        # removed in Julia 1.0
     ('julia_ver1', 'f = open("le.bin","r");\na = map(ltoh, read!(f, Array{Int16}(undef, 2, 3)));\nb = a[:, 4]'),     # BoundsError
     ('idl', 'a = read_binary("le.bin", data_type=7, data_dims=[6], endian="little")'),            # 7 = string, not numeric
